@@ -21,6 +21,10 @@ open Nibiru List
 
 /-! ### T1 -/
 theorem fact_C01_map_range_sites : Generated.mapRangeSites = expectedSites.map (·.1) := by decide
+
+/-- … and inside each of those loops, the writes to anything that outlives an iteration (and the early exits) are exactly the
+    ones the classification was made for -/
+theorem fact_C01_map_range_outer_writes : Generated.mapRangeOuterWrites = expectedOuterWrites := by decide
 theorem fact_C01_to_slice_consumers : Generated.setToSliceConsumers = expectedToSliceConsumers := by decide
 theorem fact_C01_goroutines_and_clock :
     Generated.goStmtSites = expectedGoStmts ∧ Generated.selectStmtSites = [] ∧ Generated.timeNowSites = expectedTimeNow := by decide
